@@ -40,7 +40,7 @@ def make_plan(ctx):
         bits = 8 * nb
         lat = vf.float_lattice(bits)
         cl = class_lattice(bits, E, M, rng, ctx.q(16 if E == 8 else 128, 1 if E == 8 else 4))
-        un = [(v,) for v in lat + cl] + [(rng.getrandbits(bits),) for _ in range(ctx.q(600, 200000))] + [(moderate(bits, E, M, rng),) for _ in range(ctx.q(200, 20000))]
+        un = [(v,) for v in lat + cl] + [(rng.getrandbits(bits),) for _ in range(ctx.q(600, 40000))] + [(moderate(bits, E, M, rng),) for _ in range(ctx.q(200, 5000))]
         # integers and half-integers for is_flint/is_even/is_odd, incl. beyond 2^p
         bias = (1 << (E - 1)) - 1
         for k in list(range(0, 40)) + [M - 1, M, M + 1, M + 2, 63, 64, 100]:
@@ -59,16 +59,16 @@ def make_plan(ctx):
         # binary
         ps = [(a, b) for a in lat for b in lat]
         m = (1 << bits) - 1
-        for _ in range(ctx.q(500, 100000)):
+        for _ in range(ctx.q(500, 20000)):
             ps.append((rng.getrandbits(bits), rng.getrandbits(bits)))
-        for _ in range(ctx.q(500, 100000)):
+        for _ in range(ctx.q(500, 20000)):
             ps.append((moderate(bits, E, M, rng), moderate(bits, E, M, rng)))
-        for _ in range(ctx.q(250, 40000)):   # near-cancellation x, -x(1 +- 2^-k) and nearly equal magnitudes
+        for _ in range(ctx.q(250, 8000)):   # near-cancellation x, -x(1 +- 2^-k) and nearly equal magnitudes
             x = moderate(bits, E, M, rng)
             y = (x ^ (1 << (bits - 1))) ^ (1 << rng.randrange(M))
             ps.append((x, y))
             ps.append((x, (x + rng.randint(-3, 3)) & m))
-        for _ in range(ctx.q(150, 20000)):   # subnormal / overflow neighbourhoods
+        for _ in range(ctx.q(150, 4000)):   # subnormal / overflow neighbourhoods
             ps.append(((rng.getrandbits(1) << (bits - 1)) | (rng.randint(0, 3) << M) | rng.getrandbits(M), moderate(bits, E, M, rng)))
             ps.append(((rng.getrandbits(1) << (bits - 1)) | (rng.randint((1 << E) - 4, (1 << E) - 2) << M) | rng.getrandbits(M), moderate(bits, E, M, rng)))
         brows = vf.rows_from(ps, nb, (0, 64 // nb // 2 + 1) if not ctx.quick else (0,))
@@ -80,7 +80,7 @@ def make_plan(ctx):
                 plan.append("ew %s %s 0 %s %s - -" % (op, t, ra, rb))
         # ldexp: exponent lanes are small signed integers
         ld = []
-        for x in lat + [moderate(bits, E, M, rng) for _ in range(ctx.q(300, 5000))]:
+        for x in lat + [moderate(bits, E, M, rng) for _ in range(ctx.q(300, 1500))]:
             for k in (0, 1, -1, 5, -7, M, -M, 2 * M, -(1 << (E - 1)), (1 << (E - 1)) - 2, rng.randint(-300, 300)):
                 ld.append((x, k))
         for ra, rb in vf.rows_from(ld, nb, (0, 3)):
@@ -88,11 +88,11 @@ def make_plan(ctx):
         # ternary
         tl = [lat[i] for i in range(0, len(lat), max(1, len(lat) // 12))][:12]
         ts = [(a, b, c) for a in tl for b in tl for c in tl]
-        for _ in range(ctx.q(500, 60000)):
+        for _ in range(ctx.q(500, 12000)):
             a, b = moderate(bits, E, M, rng), moderate(bits, E, M, rng)
             c = rng.choice([moderate(bits, E, M, rng), rng.getrandbits(bits)])
             ts.append((a, b, c))
-        for _ in range(ctx.q(250, 20000)):   # a*b close to -c: the fused and unfused results differ
+        for _ in range(ctx.q(250, 5000)):   # a*b close to -c: the fused and unfused results differ
             a, b = moderate(bits, E, M, rng), moderate(bits, E, M, rng)
             fa, fb = (struct.unpack("<f", struct.pack("<I", a))[0], struct.unpack("<f", struct.pack("<I", b))[0]) if bits == 32 else \
                      (struct.unpack("<d", struct.pack("<Q", a))[0], struct.unpack("<d", struct.pack("<Q", b))[0])
